@@ -269,4 +269,150 @@ func TestVerifC07(t *testing.T) {
 		}
 		out.Count("mode:" + mode)
 	}
+
+	// ---- get-entry-and-proof: same bytes for the same index
+	ng := verifkit.N(1500, 60000)
+	for it := 0; it < ng; it++ {
+		m := int64(1000)
+		var liS, tsS string
+		switch r.Intn(10) {
+		case 0:
+			liS, tsS = c07Odd[r.Intn(len(c07Odd))], strconv.FormatInt(c07PickInt(r, m), 10)
+		case 1:
+			liS, tsS = strconv.FormatInt(c07PickInt(r, m), 10), c07Odd[r.Intn(len(c07Odd))]
+		case 2:
+			liS, tsS = strconv.FormatInt(c07PickInt(r, m), 10), strconv.FormatInt(c07PickInt(r, m), 10)
+		default:
+			ts := 1 + r.I64n(40)
+			if r.Intn(5) == 0 {
+				ts = 1
+			}
+			li := r.I64n(ts)
+			if r.Intn(8) == 0 {
+				li = ts // out of range by one
+			}
+			liS, tsS = strconv.FormatInt(li, 10), strconv.FormatInt(ts, 10)
+		}
+		tsv, tserr := strconv.ParseInt(tsS, 10, 64)
+		liv, lierr := strconv.ParseInt(liS, 10, 64)
+		var tree uint64
+		switch r.Intn(5) {
+		case 0:
+			if tserr == nil && tsv > 0 {
+				tree = uint64(tsv) - 1
+			}
+		case 1:
+			tree = math.MaxUint64
+		default:
+			if tserr == nil && tsv > 0 {
+				tree = uint64(tsv) + uint64(r.Intn(3))
+			}
+		}
+		mode := []string{"honest", "honest", "honest", "honest", "noleaf", "emptyvalue", "noproof", "nohashes"}[r.Intn(8)]
+		var gotReq *trillian.GetEntryAndProofRequest
+		var rleaf *trillian.LogLeaf
+		var rproof *trillian.Proof
+		fl := &verifkit.FuncLog{}
+		fl.GetEntryAndProofF = func(req *trillian.GetEntryAndProofRequest) (*trillian.GetEntryAndProofResponse, error) {
+			gotReq = req
+			v, x := st.leaf(req.LeafIndex)
+			rleaf = &trillian.LogLeaf{LeafIndex: req.LeafIndex, LeafValue: v, ExtraData: x}
+			k := 1 + r.Intn(4)
+			if req.TreeSize == 1 && r.Bool() {
+				k = 0
+			}
+			rproof = &trillian.Proof{LeafIndex: req.LeafIndex}
+			for i := 0; i < k; i++ {
+				rproof.Hashes = append(rproof.Hashes, r.Bytes(32))
+			}
+			switch mode {
+			case "noleaf":
+				rleaf = nil
+			case "emptyvalue":
+				rleaf.LeafValue = nil
+			case "noproof":
+				rproof = nil
+			case "nohashes":
+				rproof.Hashes = nil
+			}
+			return &trillian.GetEntryAndProofResponse{Leaf: rleaf, Proof: rproof, SignedLogRoot: vRoot(tree, make([]byte, 32), 1)}, nil
+		}
+		li := vLogInfo(fl, nil, nil, nil, nil)
+		q := url.Values{}
+		if liS != "" || r.Intn(2) == 0 {
+			q.Set("leaf_index", liS)
+		}
+		if tsS != "" || r.Intn(2) == 0 {
+			q.Set("tree_size", tsS)
+		}
+		var status int
+		var body []byte
+		p := verifkit.Guard(func() {
+			w := vServe(li, "get-entry-and-proof", "GET", q, "")
+			status, body = w.Code, w.Body.Bytes()
+		})
+		var sb strings.Builder
+		fmt.Fprintf(&sb, "gep %s %s %d", hx(liS), hx(tsS), tree)
+		if rleaf == nil {
+			sb.WriteString(" -")
+		} else {
+			fmt.Fprintf(&sb, " leaf %d %s %s", rleaf.LeafIndex, verifkit.Hex(rleaf.LeafValue), verifkit.Hex(rleaf.ExtraData))
+		}
+		if rproof == nil {
+			sb.WriteString(" -")
+		} else {
+			fmt.Fprintf(&sb, " proof %d", len(rproof.Hashes))
+			for _, h := range rproof.Hashes {
+				sb.WriteString(" " + verifkit.Hex(h))
+			}
+		}
+		ans := "panic"
+		var rsp ct.GetEntryAndProofResponse
+		if p == "" {
+			ans = strconv.Itoa(status)
+			if gotReq == nil {
+				ans += " none"
+			} else {
+				ans += fmt.Sprintf(" req %d %d", gotReq.LeafIndex, gotReq.TreeSize)
+			}
+			if status == 200 {
+				if err := json.Unmarshal(body, &rsp); err != nil {
+					ans += " badjson"
+				} else {
+					ans += fmt.Sprintf(" %s %s %d", verifkit.Hex(rsp.LeafInput), verifkit.Hex(rsp.ExtraData), len(rsp.AuditPath))
+					for _, h := range rsp.AuditPath {
+						ans += " " + verifkit.Hex(h)
+					}
+				}
+			}
+		}
+		out.T(sb.String(), ans)
+		key := fmt.Sprintf("gep leaf_index=%s tree_size=%s tree=%d mode=%s", liS, tsS, tree, mode)
+		valid := lierr == nil && tserr == nil && liv >= 0 && liv < tsv
+		switch {
+		case p != "":
+			out.Fail(key, "panic: "+p)
+		case !valid:
+			out.Count("class:gep-invalid-params")
+			if status/100 != 4 || gotReq != nil {
+				out.Fail(key, fmt.Sprintf("invalid parameters answered %d, backend called=%v", status, gotReq != nil))
+			}
+		default:
+			out.Count("class:gep-valid")
+			if gotReq == nil || gotReq.LeafIndex != liv || gotReq.TreeSize != tsv {
+				out.Fail(key, "backend not asked for exactly (leaf_index, tree_size)")
+				break
+			}
+			if status == 200 {
+				out.Count("class:gep-200")
+				v, x := st.leaf(liv)
+				if string(rsp.LeafInput) != string(v) || string(rsp.ExtraData) != string(x) {
+					out.Fail(key, "served bytes differ from the stored entry of that index")
+				}
+				if mode != "honest" && !(mode == "nohashes" && tsv == 1) {
+					out.Fail(key, "malformed backend reply answered 200")
+				}
+			}
+		}
+	}
 }
